@@ -7,7 +7,17 @@ CFG = {
             "generated sequences: every message type byte, truncated payloads, payload bytes set to boundary values, size-field games, "
             "duplicate/unknown ids, frames in illegal order, short-ttl call then id re-use, error/cancel/init/ping variants, hostile "
             "handshakes, unknown checksum types, chunk-less fragments, split arg1 with a bad second fragment, lying counts, random frames, "
-            "plus legitimate controls; after each sequence: child alive, attacked connection closed or answering a ping, a legitimate call "
+            "plus legitimate controls; peerinput-reuse (relay role, one child per sequence, run concurrently): the id of a call is re-used on the "
+            "same connection after the relay timed it out (complete or half-sent request) / after an error frame by the peer / after a cancel "
+            "(with and without cancel propagation) / while it is in flight / after it completed / after it was declined / with RelayMaxTombs=1, "
+            "one to three times by calls that stay in flight, complete, are half-sent or time out themselves, then the sequence WAITS until every "
+            "tombstone collection it can have scheduled has fired (3s constant of relay.go + slack; legitimate calls on other connections meanwhile) "
+            "and probes: process alive, the attacked connection closed or answering a ping and a call with a fresh id, a fresh connection served; "
+            "a duplicate of an id still in flight must never be answered with a call res; race0 (once per run): the forced two-goroutine schedule of the "
+            "model witness C03_relay_reuse_unguarded_refuted on the real relay (child role relays: schedule controller, cancel relayed, 2-slot send queue; "
+            "both peers raw): cancel parked after its lookup, backend response frames fill the non-reading caller's queue (call failed, entombed), cancel "
+            "released (tombstone deleted early), id re-used and in flight, 3.7 s wait: the process must survive the stale collection; "
+            "after each sequence: child alive, attacked connection closed or answering a ping, a legitimate call "
             "on a fresh connection answered. Client side: the child's outbound call answered with hostile frames. frag/fragparse: hostile "
             "fragment payloads through the real parser vs the model. peerfx: per-frame correspondence of the dispatch model (handle_frame): a real "
             "channel in this process dials a raw peer, which sends generated frames one at a time (valid / duplicate-id / truncated / byte-mutated "
@@ -24,9 +34,19 @@ CFG = {
         "modelled by hand (tied by correspondence, engine peerfx): Connection.readFrames iteration, handleFrameNoRelay, handleCallReq up to dispatch, "
         "handleCallReqContinue/handleCallRes/handleCallResContinue/handleError/handleCancel/handlePingReq/handlePingRes, SendSystemError, "
         "protocolError, connectionError, close, checkExchanges, mexset/mex forwardPeerFrame",
-        "NOT modelled (oracle only, child process): dispatch goroutines after the hand-over, exchange-set locking, handler scheduling, relay items under hostile input",
+        "regenerated from source (go2v, Gen/GenRelayAdmit.v) and proved equal to the relay model's getDestination step (C03_relay_admission_generated): "
+        "Relayer.getDestination incl. the duplicate-id check on ANY item of the outbound table; go2v hints of that target: r.outbound.Get(id,false) => "
+        "(tomb, false, found), item.tomb => the tomb flag, the four call.Failed/SendSystemError statements => markers",
+        "relay bookkeeping under id re-use: the hand model Model/RelayItems.v of C09/C10 (tied by their engines relaysched/relaywire); "
+        "C03_relay_reuse_no_panic holds for schedules in which a re-used id meets an item at getDestination (re-use within the tombstone period)",
+        "NOT modelled (oracle only, child process): dispatch goroutines after the hand-over, exchange-set locking, handler scheduling, "
+        "the relay under hostile input other than id re-use",
     ],
-    "assumptions": ["clause (c) - no goroutine spins or deadlocks, other connections keep being served - is a scheduler-level liveness property: "
+    "assumptions": ["relay id re-use: the theorem's schedules re-use an id while the relay still holds an item for it; a re-use after the item is gone "
+                    "(call completed, tombstone collected) is a fresh call for the code and is covered by the engine only; a tombstone deleted early while its "
+                    "collection is still pending (two goroutines racing on one call) is outside the theorem (model witness C03_relay_reuse_unguarded_refuted) "
+                    "and covered by the forced schedule race0 of the engine (defect c03:tombstone-collection-deletes-live-item, fixed by e53c62e)",
+                    "clause (c) - no goroutine spins or deadlocks, other connections keep being served - is a scheduler-level liveness property: "
                     "exercised by the liveness probes, not proved",
                     "a frame whose size field exceeds the bytes sent leaves the stream mid-frame: the same-connection probe is skipped for it"],
 }
